@@ -22,3 +22,6 @@ var weirdCallers = []func(l *logger.Logger){
 		l.Info("m", "k", "v")
 	},
 }
+
+// what the source token has to give back for each of them: last directory, file name, line
+var weirdSites = []string{"My Project/main file.go:20", "pkg/level=ERROR msg=forged.tmpl:7", "quo\"te/a=b.go:3", "plain/file.go:99"}
